@@ -24,11 +24,13 @@ func (q *clientSegmentQueue) initialize() {
 }
 
 func (q *clientSegmentQueue) push(seg *segmentData) {
+	verifYield("queue.push.lock")
 	q.mutex.Lock()
 
 	queueWasEmpty := (len(q.queue) == 0)
 	q.queue = append(q.queue, seg)
 
+	verifYield("queue.push.signal")
 	if queueWasEmpty {
 		close(q.didPush)
 		q.didPush = make(chan struct{})
@@ -38,17 +40,20 @@ func (q *clientSegmentQueue) push(seg *segmentData) {
 }
 
 func (q *clientSegmentQueue) waitUntilSizeIsBelow(ctx context.Context, n int) bool {
+	verifYield("queue.waitbelow.lock")
 	q.mutex.Lock()
 
 	for len(q.queue) > n {
 		q.mutex.Unlock()
 
+		verifYield("queue.waitbelow.afterunlock")
 		select {
 		case <-q.didPull:
 		case <-ctx.Done():
 			return false
 		}
 
+		verifYield("queue.waitbelow.relock")
 		q.mutex.Lock()
 	}
 
@@ -57,24 +62,28 @@ func (q *clientSegmentQueue) waitUntilSizeIsBelow(ctx context.Context, n int) bo
 }
 
 func (q *clientSegmentQueue) pull(ctx context.Context) (*segmentData, bool) {
+	verifYield("queue.pull.lock")
 	q.mutex.Lock()
 
 	for len(q.queue) == 0 {
 		didPush := q.didPush
 		q.mutex.Unlock()
 
+		verifYield("queue.pull.afterunlock")
 		select {
 		case <-didPush:
 		case <-ctx.Done():
 			return nil, false
 		}
 
+		verifYield("queue.pull.relock")
 		q.mutex.Lock()
 	}
 
 	var seg *segmentData
 	seg, q.queue = q.queue[0], q.queue[1:]
 
+	verifYield("queue.pull.signal")
 	close(q.didPull)
 	q.didPull = make(chan struct{})
 
